@@ -793,19 +793,45 @@ class DeferQueue:
             # This is a request for a write that we've already
             # seen.  This can happen in the event of a retry
             # where if we retry at at offset N/2, we'll requeue
-            # offsets 0-N/2 again.
-            return []
+            # offsets 0-N/2 again.  A retry is not guaranteed to be
+            # split into the same chunks as the original request, so
+            # only the part that was already written is dropped.
+            already_written = self._next_offset - offset
+            if already_written >= len(data):
+                return []
+            data = data[already_written:]
+            offset = self._next_offset
         writes = []
         if offset in self._pending_offsets:
             # We've already queued this offset so this request is
             # a duplicate.  In this case we should ignore
-            # this request and prefer what's already queued.
-            return []
-        heapq.heappush(self._writes, (offset, data))
-        self._pending_offsets.add(offset)
-        while self._writes and self._writes[0][0] == self._next_offset:
+            # this request and prefer what's already queued, unless
+            # the new request carries more data than the queued one.
+            if not self._replace_if_longer(offset, data):
+                return []
+        else:
+            heapq.heappush(self._writes, (offset, data))
+            self._pending_offsets.add(offset)
+        while self._writes and self._writes[0][0] <= self._next_offset:
             next_write = heapq.heappop(self._writes)
-            writes.append({'offset': next_write[0], 'data': next_write[1]})
             self._pending_offsets.remove(next_write[0])
-            self._next_offset += len(next_write[1])
+            next_data = next_write[1]
+            # A queued write may start inside a range that a longer
+            # write has covered in the meantime.
+            already_written = self._next_offset - next_write[0]
+            if already_written > 0:
+                if already_written >= len(next_data):
+                    continue
+                next_data = next_data[already_written:]
+            writes.append({'offset': self._next_offset, 'data': next_data})
+            self._next_offset += len(next_data)
         return writes
+
+    def _replace_if_longer(self, offset, data):
+        for i, (queued_offset, queued_data) in enumerate(self._writes):
+            if queued_offset == offset:
+                if len(data) <= len(queued_data):
+                    return False
+                self._writes[i] = (offset, data)
+                return True
+        return False
